@@ -710,3 +710,57 @@ def value_eq(a, b):
     if isinstance(a, Tup) and isinstance(b, Tup):
         return z3.And(*[value_eq(x, y) for x, y in zip(a.fields, b.fields)]) if a.fields else z3.BoolVal(True)
     raise Inconclusive("equality of %r and %r" % (a, b))
+
+
+# ------------------------------------------------------------------------------------------
+# chunked slices, byte-order conversions
+
+@model(r"core::slice::<impl \[.*\]>::chunks_exact|core::slice::<impl \[.*\]>::chunks")
+def m_chunks(it, ctx, callee, args):
+    el = elems_of(args[0])
+    n = args[1].conc()
+    if n is None or n == 0:
+        raise Inconclusive("chunk size must be a concrete non-zero number")
+    exact = "chunks_exact" in callee
+    chunks = [Slice(el[i:i + n], "slice") for i in range(0, len(el), n)]
+    if exact:
+        chunks = [c for c in chunks if len(c.elems) == n]
+    return Tup((Slice(chunks, "chunks"), usize(0)), name="Iter:copied")
+
+
+@model(r"<((std|core)::slice::)?(ChunksExact|Chunks)<.*> as Iterator>::next")
+def m_chunks_next(it, ctx, callee, args):
+    return m_iter_next(it, ctx, callee, args)
+
+
+@model(r"<&\[(u8|u16|u32|u64)\] as (core::convert::)?TryInto<\[\1; \d+\]>>::try_into|<\[(u8|u16|u32|u64); \d+\] as (core::convert::)?TryFrom<&\[\3\]>>::try_from")
+def m_slice_to_array(it, ctx, callee, args):
+    n = int(re.search(r"; (\d+)\]", callee).group(1))
+    el = elems_of(args[0])
+    if len(el) != n:
+        return Adt("Result", "Err", (Opaque("TryFromSliceError"),))
+    return Adt("Result", "Ok", (VecV(el, "array"),))
+
+
+@model(r"core::num::<impl (u16|u32|u64|u128|usize|i16|i32|i64|i128)>::from_(le|be|ne)_bytes")
+def m_from_bytes(it, ctx, callee, args):
+    m = re.search(r"<impl (\w+)>::from_(le|be|ne)_bytes", callee)
+    ty, order = m.group(1), m.group(2)
+    el = list(elems_of(args[0]) if isinstance(args[0], Ref) else args[0].elems)
+    if len(el) * 8 != INT_W[ty]:
+        raise Inconclusive("from_%s_bytes with %d bytes for %s" % (order, len(el), ty))
+    if order in ("le", "ne"):
+        el = el[::-1]
+    return Int(z3.Concat(*[e.t for e in el]) if len(el) > 1 else el[0].t, ty)
+
+
+@model(r"core::num::<impl (u16|u32|u64|u128|usize|i16|i32|i64|i128)>::to_(le|be|ne)_bytes")
+def m_to_bytes(it, ctx, callee, args):
+    m = re.search(r"<impl (\w+)>::to_(le|be|ne)_bytes", callee)
+    ty, order = m.group(1), m.group(2)
+    v = args[0]
+    n = INT_W[ty] // 8
+    bs = [Int(z3.Extract(8 * i + 7, 8 * i, v.t), "u8") for i in range(n)]
+    if order == "be":
+        bs = bs[::-1]
+    return VecV(bs, "array")
